@@ -113,6 +113,14 @@ type Engine struct {
 	pathUnknown   bool
 	pathDep       uint8
 	unvalidatable int
+	flatBin       string
+	flatTimeoutMs int
+	flatFirst     bool
+	incUnknowns   int
+	lastFlat      bool
+	lastFlatConds []*Term
+	extraScoped   []*Term
+	keepOpen      bool
 	callStack     []string
 }
 
@@ -121,6 +129,54 @@ func NewEngine(s *Solver) *Engine {
 		funcsExecuted: map[string]bool{}, summarised: map[string]bool{}, siteHist: map[string]int{}, intrinsicsHit: map[string]bool{}, stubsHit: map[string]bool{},
 		assumptions: map[string]bool{}, maxViolationsPerKey: 1, traceEvery: 1, maxTraces: 50, unwind: 64,
 		allocLimit: 0}
+}
+
+// check decides pc ∧ extra: incremental solver first (short time slice), then
+// a one-shot solver on the flattened path condition.
+func (e *Engine) check(extra *Term) SatResult {
+	e.lastFlat = false
+	if extra == tFalse {
+		return Unsat
+	}
+	if !e.flatFirst {
+		r := e.solver.Check(extra)
+		if r != Unknown || e.flatBin == "" || len(e.solver.errs) > 0 {
+			return r
+		}
+		e.solver.nUnknown--
+		e.incUnknowns++
+		if e.incUnknowns >= 3 {
+			e.flatFirst = true
+		}
+	}
+	conds := append(append([]*Term(nil), e.pathConds...), e.extraScoped...)
+	if extra != nil {
+		conds = append(conds, extra)
+	}
+	r, _ := FlatCheck(e.flatBin, conds, nil, e.flatTimeoutMs, "chk")
+	if r == Sat {
+		e.lastFlat = true
+		e.lastFlatConds = conds
+	}
+	if r == Unknown {
+		e.solver.nUnknown++
+	}
+	return r
+}
+
+// values evaluates terms in the model of the last Sat answer.
+func (e *Engine) values(ts []*Term) ([]uint64, bool) {
+	if len(ts) == 0 {
+		return nil, true
+	}
+	if e.lastFlat {
+		r, vals := FlatCheck(e.flatBin, e.lastFlatConds, ts, e.flatTimeoutMs, "val")
+		if r != Sat || vals == nil {
+			return nil, false
+		}
+		return vals, true
+	}
+	return e.solver.GetValues(ts)
 }
 
 func (e *Engine) beginPath() {
@@ -248,12 +304,12 @@ func (e *Engine) Branch(c *Term, site string) bool {
 	} else {
 		e.checkBudget()
 		dec = &decision{kind: "branch", nopts: 2, site: site, levelBefore: e.solver.level}
-		rt := e.solver.Check(c)
+		rt := e.check(c)
 		switch rt {
 		case Unsat:
 			dec.opts = []int{0}
 		default:
-			rf := e.solver.Check(Not(c))
+			rf := e.check(Not(c))
 			if rt == Unknown || rf == Unknown {
 				e.noteUnknown(site)
 			}
@@ -275,7 +331,7 @@ func (e *Engine) Branch(c *Term, site string) bool {
 			e.siteHist[site]++
 			if debugSite != "" && strings.Contains(site, debugSite) && debugCount < 3 {
 				debugCount++
-				if e.solver.checkSat() == Sat {
+				if e.checkPath() == Sat {
 					if in, _, ok := e.modelInputs(); ok {
 						fmt.Fprintf(os.Stderr, "DEBUG fork at %s cond=%s inputs=%v\n", site, c, in)
 					}
@@ -348,11 +404,11 @@ func (e *Engine) PickValue(t *Term, site string) uint64 {
 		return d.val
 	}
 	d := &decision{kind: "pick", nopts: 1, opts: []int{0}, site: site, levelBefore: e.solver.level}
-	if e.solver.checkSat() != Sat {
+	if e.checkPath() != Sat {
 		e.noteUnknown("pick " + site)
 		panic(pathEnd{"unknown", "pick " + site})
 	}
-	vals, ok := e.solver.GetValues([]*Term{t})
+	vals, ok := e.values([]*Term{t})
 	if !ok {
 		panic(pathEnd{"unknown", "pick " + site})
 	}
@@ -380,7 +436,7 @@ func (e *Engine) Assume(c *Term, site string) {
 		dec = &decision{kind: "assume", nopts: 1, site: site, levelBefore: e.solver.level}
 		r := Unsat
 		if c != tFalse {
-			r = e.solver.Check(c)
+			r = e.check(c)
 		}
 		if r == Unknown {
 			e.noteUnknown(site)
@@ -438,16 +494,13 @@ func (e *Engine) Assert(c *Term, label, site string) {
 		e.stack = append(e.stack, dec)
 		e.depth++
 		nc := Not(c)
-		e.solver.define(nc)
-		e.solver.raw("(push 1)")
-		e.solver.raw("(assert " + nc.ref() + ")")
-		r := e.solver.checkSat()
+		r := e.checkKeep(nc)
 		if r == Sat {
 			dec.opts = []int{0}
 			e.recordViolation("assert", label, site, "")
-			e.solver.raw("(pop 1)")
+			e.releaseKeep()
 		} else {
-			e.solver.raw("(pop 1)")
+			e.releaseKeep()
 			if r == Unknown {
 				e.noteUnknown("assert " + label + " at " + site)
 			}
@@ -461,13 +514,77 @@ func (e *Engine) Assert(c *Term, label, site string) {
 	e.setKnown(c, true)
 }
 
+// checkKeep is check(extra) but, for an incremental Sat answer, leaves the
+// temporary scope open so that the model can be read; releaseKeep closes it.
+func (e *Engine) checkKeep(extra *Term) SatResult {
+	e.lastFlat = false
+	e.keepOpen = false
+	if !e.flatFirst {
+		s := e.solver
+		s.define(extra)
+		s.raw("(push 1)")
+		s.tmpLevel = 1
+		s.define(extra)
+		s.raw("(assert " + extra.ref() + ")")
+		r := s.checkSat()
+		e.keepOpen = true
+		if r != Unknown || e.flatBin == "" || len(s.errs) > 0 {
+			return r
+		}
+		s.nUnknown--
+		e.incUnknowns++
+		if e.incUnknowns >= 3 {
+			e.flatFirst = true
+		}
+	}
+	conds := append(append([]*Term(nil), e.pathConds...), extra)
+	r, _ := FlatCheck(e.flatBin, conds, nil, e.flatTimeoutMs, "assert")
+	if r == Sat {
+		e.lastFlat = true
+		e.lastFlatConds = conds
+	}
+	if r == Unknown {
+		e.solver.nUnknown++
+	}
+	return r
+}
+
+func (e *Engine) releaseKeep() {
+	if e.keepOpen {
+		e.solver.raw("(pop 1)")
+		e.solver.tmpLevel = 0
+		e.solver.forgetAbove(e.solver.level)
+		e.keepOpen = false
+	}
+	e.lastFlat = false
+}
+
+// checkPath decides the current path condition itself (for model extraction).
+func (e *Engine) checkPath() SatResult {
+	e.lastFlat = false
+	if !e.flatFirst {
+		r := e.solver.checkSat()
+		if r != Unknown || e.flatBin == "" {
+			return r
+		}
+		e.solver.nUnknown--
+	}
+	conds := append([]*Term(nil), e.pathConds...)
+	r, _ := FlatCheck(e.flatBin, conds, nil, e.flatTimeoutMs, "path")
+	if r == Sat {
+		e.lastFlat = true
+		e.lastFlatConds = conds
+	}
+	return r
+}
+
 // Fail reports a violation that holds on the whole current path (e.g. a Go panic).
 func (e *Engine) Fail(kind, label, site, detail string) {
 	if e.depth < len(e.stack) {
 		// replayed prefix cannot contain a failure (it would have ended the path)
 		panic(fmt.Sprintf("replay divergence: failure %s inside prefix", label))
 	}
-	r := e.solver.checkSat()
+	r := e.checkPath()
 	if r == Sat {
 		e.recordViolation(kind, label, site, detail)
 	} else if r == Unknown {
@@ -482,7 +599,7 @@ func (e *Engine) modelInputs() (map[string]interface{}, *Model, bool) {
 	for _, in := range e.inputs {
 		ts = append(ts, in.t)
 	}
-	vals, ok := e.solver.GetValues(ts)
+	vals, ok := e.values(ts)
 	if !ok {
 		return nil, nil, false
 	}
@@ -522,7 +639,7 @@ func (e *Engine) modelInputs() (map[string]interface{}, *Model, bool) {
 			m.arrs[in.arr] = map[uint64]uint8{}
 		}
 	}
-	bvals, ok := e.solver.GetValues(bts)
+	bvals, ok := e.values(bts)
 	if !ok {
 		return nil, nil, false
 	}
@@ -585,7 +702,7 @@ func (e *Engine) finishPath(outcome string) {
 			e.unvalidatable++
 		}
 		if want || len(e.samples) < 3 {
-			if e.solver.checkSat() == Sat {
+			if e.checkPath() == Sat {
 				if tr, ok := e.buildTrace(); ok {
 					if want {
 						e.traces = append(e.traces, tr)
@@ -619,7 +736,7 @@ func (e *Engine) buildTrace() (TraceRec, bool) {
 			}
 		}
 	}
-	vals, ok := e.solver.GetValues(ts)
+	vals, ok := e.values(ts)
 	if !ok {
 		return TraceRec{}, false
 	}
@@ -646,7 +763,7 @@ func (e *Engine) buildTrace() (TraceRec, bool) {
 			}
 		}
 	}
-	bvals, ok := e.solver.GetValues(bts)
+	bvals, ok := e.values(bts)
 	if !ok {
 		return TraceRec{}, false
 	}
